@@ -3,7 +3,13 @@
 // mix: pipelines on go9p.Tag (requests sharing one tag) run while other calls
 // of the same client (ordinary blocking calls, pipelines of other Tags) are
 // outstanding; a script fixes the order in which the requests are issued and
-// the order in which the peer answers them.
+// the order in which the peer answers them. The consumer of a Tag hands a
+// drawn fraction of the completions back with Tag.ReqFree once it has looked at
+// them (that is what the method is for), and a script may free a Tag whose
+// requests have all completed and allocate it again (step Re), so that the
+// histories mix the two interfaces over time: ordinary calls are issued after
+// pipelined requests were completed and handed back, while the same or a new
+// Tag has requests outstanding.
 //
 // burst: N callers (and T Tags) issue their calls on a fresh client at the same
 // moment; the peer holds ALL of them before it answers.
@@ -37,11 +43,21 @@ type Src struct {
 // peer produces the reply to the oldest unanswered request of Src (Ans true).
 // Replies are buffered and written out (cut according to Chunks) when a step
 // with Flush is reached, before the next request is issued and at the end.
+// Re: source Src (a Tag none of whose requests is unanswered) has its
+// completions collected, is freed with Clnt.TagFree and allocated again with
+// Clnt.TagAlloc; its remaining requests are issued on the new Tag.
 // A step that is impossible in the current state is skipped.
 type Step struct {
 	Src   int  `json:"src"`
 	Ans   bool `json:"ans,omitempty"`
 	Flush bool `json:"flush,omitempty"`
+	Re    bool `json:"re,omitempty"`
+}
+
+// handBack: does the consumer of Tag src hand its k-th completion back with
+// Tag.ReqFree? c.Free quarters of the completions, chosen by the case's seed.
+func handBack(c *Case, src, k int) bool {
+	return c.Free > 0 && int(hx.Mix(c.Seed, uint64(src), uint64(k), 91)%4) < c.Free
 }
 
 // mop is one request of a mix / burst case with everything the oracle needs.
@@ -348,6 +364,9 @@ type mixSrc struct {
 	flushed   int // replies written to the client
 	collected int // completions / results checked
 	wireTag   uint16
+	fresh     bool // the (new) Tag has not issued anything yet: its wire tag is not known
+	reAt      int  // number of requests issued when the Tag was last allocated
+	reallocs  int
 }
 
 type pend struct{ src, k int }
@@ -372,6 +391,7 @@ func runMix(c *Case, p *peer.Peer, clnt *go9p.Clnt, free0 int) error {
 		if s.Tag {
 			ms.ch = make(chan *go9p.Req, 16)
 			ms.tag = clnt.TagAlloc(ms.ch)
+			ms.fresh = true
 		} else {
 			ms.cmd = make(chan int)
 			ms.res = make(chan rpcRes, 1)
@@ -406,6 +426,7 @@ func runMix(c *Case, p *peer.Peer, clnt *go9p.Clnt, free0 int) error {
 	var stream []byte
 	var bounds []int
 	var behindForeign, besideForeign, deepest int64
+	var handedBack, rpcAfterHandBack, rpcBesideTagAfterHandBack, reallocs int64
 
 	collectOne := func(si int) error {
 		ms := srcs[si]
@@ -417,6 +438,11 @@ func runMix(c *Case, p *peer.Peer, clnt *go9p.Clnt, free0 int) error {
 			case r := <-ms.ch:
 				if err := checkDone(c, what, ms.ops[k], r); err != nil {
 					return err
+				}
+				if handBack(c, si, k) {
+					// (after the last look at r: the request's Fcall may be reused from here on)
+					ms.tag.ReqFree(r)
+					handedBack++
 				}
 			case <-time.After(deadline):
 				return hang{what + " was not delivered although the peer has answered the request", waiting()}
@@ -488,8 +514,17 @@ func runMix(c *Case, p *peer.Peer, clnt *go9p.Clnt, free0 int) error {
 		}
 		if !ms.tagged {
 			ms.wireTag = r.Msg.Tag
-		} else if k == 0 {
-			ms.wireTag = r.Msg.Tag
+			if handedBack > 0 {
+				rpcAfterHandBack++
+				for _, other := range srcs {
+					if other.tagged && other.issued > other.answered {
+						rpcBesideTagAfterHandBack++
+						break
+					}
+				}
+			}
+		} else if ms.fresh {
+			ms.wireTag, ms.fresh = r.Msg.Tag, false
 		} else if ms.wireTag != r.Msg.Tag {
 			// not a violation by itself, but then there is no pipeline to speak of
 			hx.Label("mix: a Tag changed its wire tag")
@@ -533,12 +568,40 @@ func runMix(c *Case, p *peer.Peer, clnt *go9p.Clnt, free0 int) error {
 		}
 		return nil
 	}
+	// realloc: every completion of the Tag is collected, the Tag is freed and
+	// allocated again (the new Tag may or may not get the same wire tag).
+	realloc := func(si int) error {
+		if err := flush(); err != nil {
+			return err
+		}
+		ms := srcs[si]
+		for ms.collected < ms.flushed {
+			if err := collectOne(si); err != nil {
+				return err
+			}
+		}
+		select {
+		case r := <-ms.ch:
+			return fmt.Errorf("Tag %d delivered a completion more than it had requests (%s fid %d)", si, ref9p.TypeName(r.Tc.Type), r.Tc.Fid)
+		default:
+		}
+		clnt.TagFree(ms.tag)
+		ms.tag = clnt.TagAlloc(ms.ch)
+		ms.fresh, ms.reAt = true, ms.issued
+		ms.reallocs++
+		reallocs++
+		return nil
+	}
 	for _, st := range c.Script {
 		if st.Src < 0 || st.Src >= len(srcs) {
 			continue
 		}
 		var err error
 		switch {
+		case st.Re:
+			if ms := srcs[st.Src]; ms.tagged && ms.issued == ms.answered && ms.issued > ms.reAt && ms.reallocs < maxRealloc {
+				err = realloc(st.Src)
+			}
 		case st.Ans && srcs[st.Src].answered < srcs[st.Src].issued:
 			err = answer(st.Src, st.Flush)
 		case !st.Ans && canIssue(st.Src):
@@ -597,6 +660,17 @@ func runMix(c *Case, p *peer.Peer, clnt *go9p.Clnt, free0 int) error {
 	hx.ExtraAdd("mix_tag_replies_with_other_calls_outstanding", besideForeign)
 	hx.ExtraAdd("mix_tag_replies_behind_older_call_of_other_tag", behindForeign)
 	extraMax("max_pipeline_depth", deepest)
+	hx.ExtraAdd("mix_completions_handed_back_with_ReqFree", handedBack)
+	hx.ExtraAdd("mix_tags_freed_and_allocated_again", reallocs)
+	hx.ExtraAdd("mix_calls_after_a_hand_back", rpcAfterHandBack)
+	hx.ExtraAdd("mix_calls_after_a_hand_back_with_a_tag_request_outstanding", rpcBesideTagAfterHandBack)
+	if rpcBesideTagAfterHandBack > 0 {
+		if reallocs > 0 {
+			hx.Label("mix: ordinary call issued after completions were handed back and a Tag was freed and allocated again, a Tag request outstanding")
+		} else {
+			hx.Label("mix: ordinary call issued after completions were handed back with ReqFree, a Tag request outstanding")
+		}
+	}
 	if besideForeign > 0 {
 		b, _ := json.Marshal(c)
 		hx.NonTrivial(b)
@@ -615,12 +689,14 @@ var rpcKinds = []string{"read", "read", "write", "stat", "wstat", "open", "creat
 // genScript draws a complete script for the sources: at every point one of the
 // possible actions (a source issues its next request / the peer answers the
 // oldest unanswered request of a source).
-func genScript(t *rapid.T, srcs []Src) []Step {
+func genScript(t *rapid.T, srcs []Src, re bool) []Step {
 	issued := make([]int, len(srcs))
 	answered := make([]int, len(srcs))
+	reAt := make([]int, len(srcs))
+	res := make([]int, len(srcs))
 	var script []Step
 	for {
-		var valid []Step
+		var valid, revalid []Step
 		for i, s := range srcs {
 			if issued[i] < len(s.Ops) && (s.Tag || issued[i] == answered[i]) {
 				valid = append(valid, Step{Src: i})
@@ -628,9 +704,21 @@ func genScript(t *rapid.T, srcs []Src) []Step {
 			if answered[i] < issued[i] {
 				valid = append(valid, Step{Src: i, Ans: true})
 			}
+			if re && s.Tag && issued[i] == answered[i] && issued[i] > reAt[i] && issued[i] < len(s.Ops) && res[i] < maxRealloc {
+				revalid = append(revalid, Step{Src: i, Re: true})
+			}
 		}
 		if len(valid) == 0 {
 			return script
+		}
+		// (a Tag can be freed and allocated again only while all of its requests are answered:
+		// take that chance half of the time)
+		if len(revalid) > 0 && rapid.Bool().Draw(t, "re") {
+			st := revalid[rapid.IntRange(0, len(revalid)-1).Draw(t, "which")]
+			reAt[st.Src] = issued[st.Src]
+			res[st.Src]++
+			script = append(script, st)
+			continue
 		}
 		st := valid[rapid.IntRange(0, len(valid)-1).Draw(t, "step")]
 		if st.Ans {
@@ -642,6 +730,9 @@ func genScript(t *rapid.T, srcs []Src) []Step {
 		script = append(script, st)
 	}
 }
+
+// maxRealloc bounds the number of times one source is freed and allocated again.
+const maxRealloc = 3
 
 func TestPropMix(t *testing.T) {
 	hx.Check(t, "mix", hx.N(400, 3000), func(t *rapid.T) {
@@ -661,7 +752,7 @@ func TestPropMix(t *testing.T) {
 		kinds = rapid.Permutation(kinds).Draw(t, "order")
 		for _, isTag := range kinds {
 			s := Src{Tag: isTag}
-			n, pool := rapid.IntRange(1, 3).Draw(t, "nops"), rpcKinds
+			n, pool := rapid.IntRange(1, 5).Draw(t, "nops"), rpcKinds
 			if isTag {
 				n, pool = rapid.IntRange(2, 8).Draw(t, "depth"), tagKinds
 			}
@@ -670,17 +761,24 @@ func TestPropMix(t *testing.T) {
 			}
 			c.Sources = append(c.Sources, s)
 		}
-		c.Script = genScript(t, c.Sources)
+		// consumers: none / a part / all of the completions are handed back with Tag.ReqFree
+		c.Free = rapid.SampledFrom([]int{0, 1, 2, 3, 4, 4}).Draw(t, "free")
+		c.Script = genScript(t, c.Sources, rapid.Bool().Draw(t, "realloc"))
 		if err := execute("mix", c); err != nil {
 			hx.Failf(t, "mix", c, "%v", err)
 		}
 	})
 }
 
-// enumScripts calls fn with every complete script of the sources.
-func enumScripts(srcs []Src, fn func([]Step)) {
+// enumScripts calls fn with every complete script of the sources; with re > 0
+// the scripts include the steps 'free the Tag and allocate it again' (at most
+// re times per Tag, wherever all of its requests are answered, something was
+// issued on it and something remains to be issued).
+func enumScripts(srcs []Src, re int, fn func([]Step)) {
 	issued := make([]int, len(srcs))
 	answered := make([]int, len(srcs))
+	reAt := make([]int, len(srcs))
+	res := make([]int, len(srcs))
 	var cur []Step
 	var rec func()
 	rec = func() {
@@ -702,6 +800,16 @@ func enumScripts(srcs []Src, fn func([]Step)) {
 				cur = cur[:len(cur)-1]
 				answered[i]--
 			}
+			if s.Tag && issued[i] == answered[i] && issued[i] > reAt[i] && issued[i] < len(s.Ops) && res[i] < re {
+				old := reAt[i]
+				reAt[i] = issued[i]
+				res[i]++
+				cur = append(cur, Step{Src: i, Re: true})
+				rec()
+				cur = cur[:len(cur)-1]
+				res[i]--
+				reAt[i] = old
+			}
 		}
 		if !any {
 			fn(append([]Step(nil), cur...))
@@ -720,30 +828,37 @@ func opsOf(kinds ...string) []Op {
 
 // TestEnumMix: every order of issuing and answering for a pipeline of 2..3
 // (thorough: 4) requests on one Tag next to one ordinary call, and for two Tags
-// with two requests each (thorough: plus two ordinary calls, and 3+2).
+// with two requests each (thorough: plus two ordinary calls, and 3+2); the
+// consumers hand back a part of the completions chosen by the case number.
+// Configurations marked re: the consumer hands back EVERY completion and the
+// scripts also contain every placement of 'free the Tag and allocate it again'.
 func TestEnumMix(t *testing.T) {
 	type cfg struct {
 		name string
 		srcs []Src
+		re   int
 	}
 	cfgs := []cfg{
-		{"tag2+call", []Src{{Tag: true, Ops: opsOf("read", "read")}, {Ops: opsOf("read")}}},
-		{"tag3+call", []Src{{Tag: true, Ops: opsOf("read", "write", "stat")}, {Ops: opsOf("stat")}}},
-		{"tag2+tag2", []Src{{Tag: true, Ops: opsOf("read", "stat")}, {Tag: true, Ops: opsOf("write", "read")}}},
+		{"tag2+call", []Src{{Tag: true, Ops: opsOf("read", "read")}, {Ops: opsOf("read")}}, 0},
+		{"tag3+call", []Src{{Tag: true, Ops: opsOf("read", "write", "stat")}, {Ops: opsOf("stat")}}, 0},
+		{"tag2+tag2", []Src{{Tag: true, Ops: opsOf("read", "stat")}, {Tag: true, Ops: opsOf("write", "read")}}, 0},
+		{"tag2+call2 re", []Src{{Tag: true, Ops: opsOf("read", "read")}, {Ops: opsOf("read", "stat")}}, 1},
 	}
 	if hx.Thorough() {
 		cfgs = append(cfgs,
-			cfg{"tag4+call", []Src{{Tag: true, Ops: opsOf("read", "read", "write", "clunk")}, {Ops: opsOf("write")}}},
-			cfg{"tag2+call+call", []Src{{Ops: opsOf("read")}, {Tag: true, Ops: opsOf("stat", "read")}, {Ops: opsOf("wstat")}}},
-			cfg{"tag3+tag2", []Src{{Tag: true, Ops: opsOf("read", "walk", "read")}, {Tag: true, Ops: opsOf("open", "read")}}},
-			cfg{"tag2+call2", []Src{{Tag: true, Ops: opsOf("read", "read")}, {Ops: opsOf("read", "stat")}}},
+			cfg{"tag4+call", []Src{{Tag: true, Ops: opsOf("read", "read", "write", "clunk")}, {Ops: opsOf("write")}}, 0},
+			cfg{"tag2+call+call", []Src{{Ops: opsOf("read")}, {Tag: true, Ops: opsOf("stat", "read")}, {Ops: opsOf("wstat")}}, 0},
+			cfg{"tag3+tag2", []Src{{Tag: true, Ops: opsOf("read", "walk", "read")}, {Tag: true, Ops: opsOf("open", "read")}}, 0},
+			cfg{"tag2+call2", []Src{{Tag: true, Ops: opsOf("read", "read")}, {Ops: opsOf("read", "stat")}}, 0},
+			cfg{"tag3+call2 re", []Src{{Tag: true, Ops: opsOf("read", "stat", "read")}, {Ops: opsOf("read", "read")}}, 2},
+			cfg{"tag2+call3 re", []Src{{Tag: true, Ops: opsOf("write", "read")}, {Ops: opsOf("read", "stat", "read")}}, 1},
 		)
 	}
 	idx := 0
 	var failed error
 	for _, g := range cfgs {
 		n := 0
-		enumScripts(g.srcs, func(script []Step) {
+		enumScripts(g.srcs, g.re, func(script []Step) {
 			n++
 			// every reply written on its own / replies gathered until the next request is issued
 			for _, fl := range []bool{true, false} {
@@ -756,7 +871,10 @@ func TestEnumMix(t *testing.T) {
 					sc[i].Flush = fl
 				}
 				c := &Case{Mode: "mix", Dotu: idx%4 < 2, Msize: 4096, Seed: uint64(idx), Chunks: []string{"frame", "one", "cuts"}[idx%3], CutEvery: 3 + idx%9,
-					NoKinds: idx%5 != 0, Lag: idx%7 == 0, Sources: g.srcs, Script: sc}
+					NoKinds: idx%5 != 0, Lag: idx%7 == 0, Sources: g.srcs, Script: sc, Free: int(hx.Mix(uint64(idx), 17) % 5)}
+				if g.re > 0 {
+					c.Free = 4
+				}
 				if err := execute("mixenum", c); err != nil {
 					hx.Violation("mixenum", c, err.Error())
 					failed = err
@@ -768,14 +886,16 @@ func TestEnumMix(t *testing.T) {
 			t.Fatalf("%v", failed)
 		}
 	}
-	hx.Exhaustive(fmt.Sprintf("every order of issuing and answering for %d source configurations (Tag pipelines of 2..%d next to ordinary calls / a second Tag)", len(cfgs), map[bool]int{false: 3, true: 4}[hx.Thorough()]))
+	hx.Exhaustive(fmt.Sprintf("every order of issuing and answering for %d source configurations (Tag pipelines of 2..%d next to ordinary calls / a second Tag; for a Tag next to a caller with 2%s calls also every placement of TagFree+TagAlloc, every completion handed back with ReqFree)", len(cfgs), map[bool]int{false: 3, true: 4}[hx.Thorough()], map[bool]string{false: "", true: "..3"}[hx.Thorough()]))
 }
 
 // ---------------------------------------------------------------- burst
 
 // runBurst: Reps fresh clients; on each, every caller (and every Tag) issues its
 // k-th call at the same moment, the peer holds all of them, checks the tags and
-// answers in a permutation.
+// answers in a permutation. The Tag consumers hand back c.Free quarters of the
+// completions with Tag.ReqFree before the next round; with c.ReTag every Tag
+// is freed at the end of a round and allocated again at the next gate.
 func runBurst(c *Case) error {
 	reps := c.Reps
 	if reps < 1 {
@@ -884,6 +1004,9 @@ func burstOnce(c *Case, rep int) error {
 					select {
 					case r := <-ch:
 						err = checkDone(c, fmt.Sprintf("client %d Tag %d completion %d", rep, s-n, k*perTag+j), ops[s][k*perTag+j], r)
+						if err == nil && handBack(c, s, k*perTag+j) {
+							tag.ReqFree(r)
+						}
 					case <-abort:
 						go clnt.TagFree(tag)
 						return
@@ -897,6 +1020,10 @@ func burstOnce(c *Case, rep int) error {
 					}
 					done <- err
 					return
+				}
+				if c.ReTag {
+					clnt.TagFree(tag)
+					tag = nil
 				}
 				done <- err
 			}
@@ -1004,6 +1131,8 @@ func TestPropBurst(t *testing.T) {
 		c.NTags = rapid.IntRange(0, 4).Draw(t, "ntags")
 		c.Rounds = rapid.IntRange(1, 3).Draw(t, "rounds")
 		c.Reps = rapid.IntRange(4, 12).Draw(t, "reps")
+		c.Free = rapid.SampledFrom([]int{0, 2, 4, 4}).Draw(t, "free")
+		c.ReTag = rapid.Bool().Draw(t, "retag")
 		for i := 0; i < n; i++ {
 			var ops []Op
 			for k := 0; k < c.Rounds; k++ {
